@@ -41,13 +41,26 @@ class AliasRewriter(NodeTransformer):
         # Lambda variables in scope: these are not fields and shadow aliases.
         self._lambda_variables: List[ast.Identifier] = []
 
+    def _replacement(self, node: ast._Node) -> Optional[ast._Node]:
+        """
+        The replacement for ``node``, if it is an alias.
+
+        :meta private:
+        """
+        try:
+            return self.replacements.get(node)
+        except TypeError:
+            # Not hashable: the node contains a call or a list (e.g. an alias
+            # that was replaced by a call before). Aliases are identifiers and
+            # paths, which are hashable, so this node is none of them.
+            return None
+
     def visit_Identifier(self, node: ast.Identifier) -> ast._Node:
         """:meta private:"""
         if node in self._lambda_variables:
             return node
-        if node in self.replacements:
-            return self.replacements[node]
-        return node
+        replacement = self._replacement(node)
+        return node if replacement is None else replacement
 
     def visit_Attribute(self, node: ast.Attribute) -> ast._Node:
         """:meta private:"""
@@ -57,11 +70,12 @@ class AliasRewriter(NodeTransformer):
         if root in self._lambda_variables:
             return node
 
-        if node in self.replacements:
-            return self.replacements[node]
-        else:
-            new_owner = self.visit(node.owner)
-            return ast.Attribute(new_owner, node.attr)
+        replacement = self._replacement(node)
+        if replacement is not None:
+            return replacement
+
+        new_owner = self.visit(node.owner)
+        return ast.Attribute(new_owner, node.attr)
 
     def visit_Call(self, node: ast.Call) -> ast._Node:
         """:meta private:"""
